@@ -237,6 +237,7 @@ func runOnce(f *Fix, ep *Episode, plan *simsched.Plan, nsites int, wantCounts bo
 		}(t)
 	}
 	wg.Wait()
+	simsched.WaitAll() // goroutines the library started and did not wait for
 	simsched.Stop()
 	running = false
 	out.Stats = simsched.GetStats()
@@ -283,6 +284,9 @@ func genPlan(r *core.Rand, ep *Episode, st *Sites, counts [][]uint32, total uint
 	p := &simsched.Plan{Prio: r.Perm(n)}
 	for i := range p.Prio {
 		p.Prio[i] += 1
+	}
+	for i := 0; i < 12; i++ { // priorities for goroutines the library itself may start
+		p.DynPrio = append(p.DynPrio, r.Range(-2, n+2))
 	}
 	switch r.Pick([]int{5, 2, 2, 1}) {
 	case 0: // site-stratified PCT
